@@ -107,6 +107,21 @@ def runLines : P Verdict := do
     check ((res == "ok") == (genRes == "gen-ok")) s!"Engine::generator ({genRes}) disagrees with Labels::load_from_strings ({res})" ]
   pure { corr, oracle := orc, nontriv := true, cls := s!"{kinds}:{res}" }
 
+/-- `units`: time stamps are 100 ns units at the engine's CURRENT rate and frame period, whatever setter history
+    produced them; two histories ending in the same values synthesize identically (C17 units, C03 history, C09 law). -/
+def runUnits : P Verdict := do
+  let kind ← next
+  let sr ← nat; let fp ← nat; let nstate ← nat; let nlab ← nat; let frames ← nat
+  let lastSet ← next
+  let len1 ← int; let len2 ← int; let same ← boolTok
+  let want : Int := (fp * frames : Nat)
+  let orc := firstSome [
+    check (len1 ≥ 0 && len2 ≥ 0) "synthesis of time-stamped label strings failed",
+    check (len1 == want) s!"alignment on, rate {sr}, frame period {fp} ({lastSet}): the stamps end at frame {frames}, so {want} samples are due; the engine returned {len1} (time stamps are 100 ns units at the current rate and frame period)",
+    check (len2 == want) s!"alignment on, rate {sr}, frame period {fp} (other history): {want} samples are due; the engine returned {len2}",
+    check same "two setter histories ending in the same rate and frame period synthesize the same time-stamped labels differently" ]
+  pure { corr := none, oracle := orc, nontriv := nlab ≥ 1 && nstate ≥ 1, cls := s!"units:{kind}:{lastSet}" }
+
 end Drv.Lab
 
 namespace Drv.Det
